@@ -506,6 +506,203 @@ def gen_params():
     return "\n".join(lines) + "\n"
 
 
+# ----------------------------------------------------------------------------- C18 site inventory
+CT_FUNCS = [
+    # (coq name, file, impl header regex or None, fn name)
+    ("paillier_encrypt_with_r", "crates/sl-paillier/src/lib.rs", None, "encrypt_with_r"),
+    ("paillier_decrypt", "crates/sl-paillier/src/lib.rs", None, "decrypt"),
+    ("paillier_h", "crates/sl-paillier/src/lib.rs", None, "h"),
+    ("paillier_mp", "crates/sl-paillier/src/lib.rs", None, "mp"),
+    ("paillier_decrypt_fast", "crates/sl-paillier/src/lib.rs", None, "decrypt_fast"),
+    ("paillier_extract_n_root", "crates/sl-paillier/src/lib.rs", None, "extract_n_root"),
+    ("paillier_decompose", "crates/sl-paillier/src/lib.rs", None, "decompose"),
+    ("paillier_recombine", "crates/sl-paillier/src/lib.rs", None, "recombine"),
+    ("paillier_add", "crates/sl-paillier/src/lib.rs", None, "add"),
+    ("paillier_mul", "crates/sl-paillier/src/lib.rs", None, "mul"),
+    ("paillier_mul_vartime", "crates/sl-paillier/src/lib.rs", None, "mul_vartime"),
+    ("pprf_eval", "crates/sl-oblivious/src/soft_spoken/all_but_one.rs", None, "eval_pprf"),
+    ("ss_sender_process", "crates/sl-oblivious/src/soft_spoken/soft_spoken_ot.rs", r"impl\s+SoftSpokenOTSender\b", "process"),
+    ("ss_transpose", "crates/sl-oblivious/src/soft_spoken/soft_spoken_ot.rs", None, "transpose_bool_matrix"),
+    ("rvole_receiver_process", "crates/sl-oblivious/src/rvole.rs", r"impl\s+RVOLEReceiver\b", "process"),
+    ("rvole_sender_process", "crates/sl-oblivious/src/rvole.rs", r"impl\s+RVOLESender\b", "process"),
+]
+
+SITE_KINDS = {"for": 1, "while": 2, "loop": 3, "if": 4, "match": 5, "closure": 6, "try": 7, "return": 8,
+              "shortcircuit": 9, "break": 10, "continue": 11}
+
+ITER_METHODS = ("for_each", "map", "fold", "filter", "any", "all", "find", "position", "flat_map", "filter_map",
+                "take_while", "skip_while", "try_for_each", "try_fold", "from_fn", "then", "then_some", "and_then",
+                "map_err", "unwrap_or_else", "ok_or_else")
+
+
+def blank_comments_and_strings(src):
+    """Replace comments, string and char literals by spaces, keeping every offset and newline."""
+    out = list(src)
+    i = 0
+    n = len(src)
+
+    def blank(a, b):
+        for k in range(a, b):
+            if out[k] != "\n":
+                out[k] = " "
+
+    while i < n:
+        c = src[i]
+        if src.startswith("//", i):
+            j = src.find("\n", i)
+            j = n if j < 0 else j
+            blank(i, j)
+            i = j
+        elif src.startswith("/*", i):
+            j = src.find("*/", i + 2)
+            j = n if j < 0 else j + 2
+            blank(i, j)
+            i = j
+        elif c == '"':
+            j = i + 1
+            while j < n and src[j] != '"':
+                j += 2 if src[j] == "\\" else 1
+            blank(i + 1, j)
+            i = j + 1
+        elif c == "'" and i + 2 < n and (src[i + 2] == "'" or (src[i + 1] == "\\" and src.find("'", i + 2) - i <= 6)):
+            j = src.find("'", i + 2 if src[i + 1] == "\\" else i + 1)
+            blank(i + 1, j)
+            i = j + 1
+        else:
+            i += 1
+    return "".join(out)
+
+
+def fn_span(src, impl_re, name):
+    """(start offset of '{', end offset of matching '}') of fn `name` (after the impl header if given)."""
+    start = 0
+    if impl_re:
+        m = re.search(impl_re, src)
+        if not m:
+            raise TranslateError("impl block %s not found" % impl_re)
+        start = m.end()
+    m = re.compile(r"\bfn\s+" + re.escape(name) + r"\b").search(src, start)
+    if not m:
+        raise TranslateError("function %s not found" % name)
+    # the body brace is the first '{' at paren/bracket/angle depth 0 after the signature's parameter list
+    i = src.index("(", m.end())
+    depth = 0
+    while True:
+        ch = src[i]
+        if ch in "([":
+            depth += 1
+        elif ch in ")]":
+            depth -= 1
+        elif ch == "{" and depth == 0:
+            break
+        i += 1
+    b = i
+    depth = 0
+    while True:
+        ch = src[i]
+        if ch == "{":
+            depth += 1
+        elif ch == "}":
+            depth -= 1
+            if depth == 0:
+                return b, i
+        i += 1
+
+
+def header_text(body, i):
+    """text from offset i up to the '{' that opens the block (paren/bracket depth 0)."""
+    depth = 0
+    j = i
+    while j < len(body):
+        ch = body[j]
+        if ch in "([":
+            depth += 1
+        elif ch in ")]":
+            depth -= 1
+        elif ch == "{" and depth == 0:
+            return body[i:j], j
+        elif ch == ";" and depth == 0:
+            return body[i:j], None
+        j += 1
+    return body[i:], None
+
+
+def scan_sites(src, b, e):
+    body = src[b:e + 1]
+    sites = []
+    pat = re.compile(r"\b(for|while|loop|if|match|return|break|continue)\b|(\?)|(&&|\|\|)|\.\s*(%s)\s*\(|\b(array::from_fn)\s*\("
+                     % "|".join(ITER_METHODS))
+    for m in pat.finditer(body):
+        off = b + m.start()
+        line = src.count("\n", 0, off) + 1
+        if m.group(1):
+            kw = m.group(1)
+            if kw in ("for", "while", "if", "match", "loop"):
+                text, brace = header_text(body, m.start())
+                body_line = (src.count("\n", 0, b + brace) + 1) if brace is not None else line
+                body_col = (b + brace - src.rfind("\n", 0, b + brace)) if brace is not None else 0
+                anchor = (b + brace) if (kw == "if" and brace is not None) else off
+                sites.append((kw, " ".join(text.split()), line, body_line, body_col, anchor))
+            else:
+                sites.append((kw, kw, line, line, 0, off - 1))
+        elif m.group(2):
+            # `?` : skip `?Sized`-style bounds (not inside bodies here)
+            sites.append(("try", "?", line, line, 0, off))
+        elif m.group(3):
+            if m.group(3) == "||" and re.match(r"\|\|\s*(\{|[A-Za-z_])", body[m.start():]) and \
+                    re.search(r"[(,=]\s*$", body[:m.start()]):
+                continue  # empty closure parameter list
+            sites.append(("shortcircuit", m.group(3), line, line, 0, off))
+        else:
+            name = m.group(4) or m.group(5)
+            # only adaptor calls that take a closure
+            rest = body[m.end():m.end() + 40].lstrip()
+            if rest.startswith("|") or rest.startswith("move"):
+                k1 = body.index("|", m.end())
+                k2 = body.index("|", k1 + 1)
+                sites.append(("closure", name, line, line, 0, b + k2))
+    return sites
+
+
+def site_hash(text):
+    return int.from_bytes(hashlib.sha256(text.encode()).digest()[:6], "big")
+
+
+def gen_sites():
+    lines = ["(* GENERATED by tools/gen_model.py -- do not edit.",
+             "   Control-flow site inventory of the functions property C18 names: every if/match/while/for/loop,",
+             "   closure-taking iterator adaptor, `?`, return/break/continue and short-circuit operator, keyed by",
+             "   (kind, ordinal of that kind within the function, hash of the whitespace-normalised header text). *)",
+             "From Coq Require Import NArith List.", "Import ListNotations.", "Local Open Scope N_scope.", "Module Sites.", ""]
+    side = {}
+    for coqname, path, impl_re, fn in CT_FUNCS:
+        raw = open(os.path.join(REPO, path)).read()
+        src = blank_comments_and_strings(raw)
+        b, e = fn_span(src, impl_re, fn)
+        sites = scan_sites(src, b, e)
+        counters = {}
+        entries = []
+        side[coqname] = {"file": path, "fn": fn, "line_start": src.count("\n", 0, b) + 1, "line_end": src.count("\n", 0, e) + 1,
+                         "sites": []}
+        for kind, text, line, body_line, body_col, anchor in sites:
+            k = counters.get(kind, 0)
+            counters[kind] = k + 1
+            h = site_hash(kind + ":" + text)
+            entries.append("  (* %s #%d: %s *) (%d, %d, %d)" % (kind, k, text.replace("*)", "* )")[:100], SITE_KINDS[kind], k, h))
+            side[coqname]["sites"].append({"kind": kind, "ordinal": k, "hash": h, "text": text, "line": line,
+                                           "body_line": body_line, "body_col": body_col,
+                                           "anchor_line": src.count("\n", 0, anchor) + 1,
+                                           "anchor_col": anchor - src.rfind("\n", 0, anchor)})
+        lines.append("Definition %s : list (N * N * N) := [" % coqname)
+        lines.append(";\n".join(entries))
+        lines.append("].\n")
+    lines.append("End Sites.")
+    import json
+    os.makedirs(os.path.join(OUT, "..", "..", "build"), exist_ok=True)
+    json.dump(side, open(os.path.join(OUT, "..", "..", "build", "sites.json"), "w"), indent=1)
+    return "\n".join(lines) + "\n"
+
+
 def write_if_changed(name, content):
     os.makedirs(OUT, exist_ok=True)
     path = os.path.join(OUT, name)
@@ -516,7 +713,7 @@ def write_if_changed(name, content):
     return False
 
 
-GENERATORS = {"Params.v": gen_params, "GfProg.v": gen_gf}
+GENERATORS = {"Params.v": gen_params, "GfProg.v": gen_gf, "Sites.v": gen_sites}
 
 
 def main(argv):
